@@ -100,7 +100,6 @@ def _pw(t, e):
 
 
 class Sym:
-    __array_priority__ = 1000
     __slots__ = ('t',)
 
     def __init__(s, t):
@@ -200,7 +199,8 @@ class Sym:
         except TypeError:
             return True
 
-    __hash__ = None
+    def __hash__(s):
+        return 0x5eed          # one bucket: dict / set lookups with symbolic keys compare with ==, which forks (vp/state.py)
 
     def __repr__(s):
         return 'Sym(%s)' % (str(s.t)[:60],)
